@@ -286,6 +286,11 @@ func H_c18_block() {
 				s.Start += vp.Concrete(vp.IntRange("skip", 0, 1))
 			}
 			s.Padding = vp.Concrete(vp.IntRange("segpad", 0, 2))
+			// a line segment need not end with its newline (right-trimmed lines, cells cut out of a line): with
+			// cut=1 the segment stops one byte early, leaving a gap in front of the next segment
+			if vp.ParamInt("cut", 0) == 1 && i+1 < len(lines) && s.Stop-s.Start > 1 {
+				s.Stop -= vp.Concrete(vp.IntRange("cut", 0, 1))
+			}
 		}
 		segs.Append(s)
 		list = append(list, s)
